@@ -371,6 +371,9 @@ def run_model(model, M, tier, seed, wdir, extra_behaviours=None):
             v["trace_file"] = tf
             viol.append(v)
     res["monitor_evaluations"] = cnt
+    for k in M.get("need_cnt", []):
+        if extra_behaviours is None and cnt.get(k, 0) == 0:
+            raise ToolError("vacuity: counter %s stayed 0 on the recorded traces of model %s" % (k, model))
     # attach the offending run (ops only) to each violation so that it can be replayed
     byfile = {}
     for v in viol:
